@@ -2041,6 +2041,11 @@ func c03Why(e string) string {
 
 func runC03(c *fw.Ctx) {
 	res := c.Res
+	defer func() {
+		if d := fw.Lookup("C03D"); d != nil {
+			d(c)
+		}
+	}()
 	res.Rule = "random valid chains (modes v1 / mixed / v2 / legacy); for every generated block: the untampered block must be accepted by consensus.ValidateBlock, and every applicable single-point tampering (signed content of v1/v2 transactions: output address, 1 H moved from an output to the fee, arbitrary data, claim address, contract / revision / renewal fields, attestation value, Foundation address; every signature and preimage flipped, dropped, duplicated, an extra one appended; a v1 signature's PublicKeyIndex / Timelock / CoveredFields changed; unlock conditions or spend policy replaced by the attacker's own with a valid attacker signature; contract signed by other keys; a key-rotating v2 revision signed by the NEW keys; renewal / attestation signed by another key; Foundation update without the current Foundation keys), re-sealed (payout, commitment, nonce) WITHOUT re-signing, must be rejected. Every block and mutant is also judged by the Lean ledger model (verdict and, for accepted blocks, the complete diff dump). Non-trivial = every tampered block."
 	x := &c03Ctx{c: c, rng: rand.New(rand.NewSource(c.Seed*104729 + 3))}
 	nChains := c.Budget(10, 100)
